@@ -80,7 +80,10 @@ def build(hb, profile):
         if not os.path.exists(mpath) or open(mpath).read() != manifest:
             open(mpath, "w").write(manifest)
         if not os.path.exists(os.path.join(bdir, "Cargo.lock")):
-            shutil.copy(os.path.join(REPO, "Cargo.lock"), os.path.join(bdir, "Cargo.lock"))
+            src = os.path.join(REPO, "Cargo.lock")
+            if not os.path.exists(src):  # scratch worktrees do not carry the (untracked) lock file
+                src = os.path.join(VERIF, "sim", "Cargo.lock.seed")
+            shutil.copy(src, os.path.join(bdir, "Cargo.lock"))
         open(os.path.join(bdir, ".cargo", "config.toml"), "w").write("[net]\noffline = true\n")
         env = dict(os.environ)
         env["RUSTFLAGS"] = (BASE_RUSTFLAGS + " " + HOST_BUILDS[hb]).strip()
@@ -154,11 +157,23 @@ class Leg:
         return "%s/%s/%s/%s" % (self.scenario, self.mix, self.hb, self.profile)
 
 
+class Cross:
+    """The same seeded runs on several host builds; per-run event-log digests must be identical."""
+
+    def __init__(self, scenario, mix, profile, quick, thorough, builds_quick, builds_thorough, max_ops=48):
+        self.scenario, self.mix, self.profile = scenario, mix, profile
+        self.quick, self.thorough, self.max_ops = quick, thorough, max_ops
+        self.builds_quick, self.builds_thorough = builds_quick, builds_thorough
+
+    def name(self):
+        return "cross:%s/%s/%s" % (self.scenario, self.mix, self.profile)
+
+
 PROPS = {}
 
 
-def prop(pid, level, rule, assumptions, legs, real_vs_stub):
-    PROPS[pid] = dict(level=level, rule=rule, assumptions=assumptions, legs=legs, real_vs_stub=real_vs_stub)
+def prop(pid, level, rule, assumptions, legs, real_vs_stub, cross=None):
+    PROPS[pid] = dict(level=level, rule=rule, assumptions=assumptions, legs=legs, real_vs_stub=real_vs_stub, cross=cross or [])
 
 
 REAL = "real code: every algorithm, buffer and dispatch path of the crates under /repo, built from the working tree"
@@ -209,6 +224,97 @@ prop(
 )
 
 
+ALL_FIXED = ["portable", "nostd-sse2", "nostd-ssse3", "nostd-sse41", "nostd-avx", "nostd-avx2"]
+
+prop(
+    "C14",
+    "exploration",
+    "one case = one seeded run: 1-8 guts::ChaCha states on one simulated host, <=32 operations (refill, refill4, fork = clone + refill4 vs 4 x refill, "
+    "set/get_stream_param, derive, compare with directly created state), counters biased to low word within 4 of 2^32 (carry lands in each of the four lanes) "
+    "and within 4 of 2^64, double rounds 0..=10; the same seeded runs are also executed on the portable and the five compile-time (no-std) host builds and their "
+    "per-run transcripts compared. distinct_nontrivial = distinct abstract states (op kind, low-word class incl. carry lane, high-word class, near-2^64 flag, rounds)",
+    [
+        "refill4 = 4 x refill and the state after them are decided by comparing real code with real code and through get_stream_param; "
+        "'the block for the current counter' is decided with the spec model only when the emitted block equals the spec block of a nearby counter (a position error); "
+        "any other deviation from the spec block function is C01 territory and reported as a note",
+        "seeded search: a clean batch is evidence, not proof",
+    ],
+    [
+        Leg("std", "release", "chacha_block", "C14", 150000, 3000000, max_ops=32),
+        Leg("std", "checked", "chacha_block", "C14", 150000, 3000000, max_ops=32),
+        Leg("std", "dev", "chacha_block", "C14", 10000, 200000, max_ops=32),
+    ],
+    [REAL, STUB],
+    cross=[Cross("chacha_block", "C14", "checked", 40000, 400000, ["portable", "nostd-sse2"], ALL_FIXED, max_ops=32)],
+)
+
+prop(
+    "C15",
+    "exploration",
+    "one case = one seeded run of the block-API scenario with the parameter mix: set_stream_param(0|1, v) over the full 64-bit range, get_stream_param, refill, "
+    "derive a second state that differs by exactly one of {nothing, some refills, one key bit, d[1], d[2], d[3], rebuilt through new()} and evaluate "
+    "stream32_eq/stream64_eq in both directions, compare state and following output with a state created directly with the model's values. "
+    "distinct_nontrivial = distinct abstract states (op kind, parameter, counter classes, derivation kind, expected predicate values)",
+    ["the stream-equality oracle is the statement itself: key equal and d[1..4] (32-bit) / d[2..4] (64-bit) equal", "seeded search: a clean batch is evidence, not proof"],
+    [
+        Leg("std", "release", "chacha_block", "C15", 150000, 3000000, max_ops=32),
+        Leg("std", "checked", "chacha_block", "C15", 150000, 3000000, max_ops=32),
+        Leg("std", "dev", "chacha_block", "C15", 10000, 200000, max_ops=32),
+        Leg("portable", "checked", "chacha_block", "C15", 20000, 300000, max_ops=32, tiers=("thorough",)),
+    ],
+    [REAL, STUB],
+)
+
+prop(
+    "C08",
+    "exploration",
+    "one case = one seeded run: 1-8 interleaved instances of the 15 hash types (+4 further Skein output sizes) on one simulated host, <=30 operations "
+    "(update/chain with pieces aimed at every buffer fill level: 0, 1, b-f-1, b-f, b-f+1, b, 2b-1, 2b, 2b+1, k*b+r, padding boundaries, sometimes up to 64 KiB; "
+    "clone; reset; finalize_reset (both trait paths); finalize; drop), every remaining instance finalised at the end; each digest compared with the same type's "
+    "one-shot digest of the bytes the model says were absorbed. distinct_nontrivial = distinct abstract states (type, fill class, op kind, piece class, history flags)",
+    [
+        "the oracle is the same type's own one-shot digest on purpose: C08 is about invariance under history, not conformance, so a spec deviation raises no alarm here",
+        "at most 64 KiB per run",
+        "seeded search: a clean batch is evidence, not proof",
+    ],
+    [
+        Leg("std", "release", "hash_stream", "C08", 150000, 3000000, max_ops=30),
+        Leg("std", "checked", "hash_stream", "C08", 150000, 3000000, max_ops=30),
+        Leg("std", "dev", "hash_stream", "C08", 4000, 60000, max_ops=30),
+        Leg("portable", "checked", "hash_stream", "C08", 20000, 300000, max_ops=30, tiers=("thorough",)),
+    ],
+    [REAL, STUB],
+)
+
+prop(
+    "C03",
+    "exploration",
+    "one case = one seeded run executed on every simulated host: (a) in one process the same world and operation list on the five capability levels "
+    "SSE2/SSSE3/SSE4.1/AVX/AVX2 reported through hook H1, steps interleaved host by host, transcripts compared after every step; (b) the same seeded runs in separately "
+    "built workers - portable (no_simd) and the five no-std compile-time-dispatch builds - whose per-run transcript digests are compared with the std build. Workloads: "
+    "cipher histories (S1), block-API histories (S2), hash histories restricted to the dispatching hashes BLAKE x4 / JH x4 (S4). "
+    "distinct_nontrivial = distinct abstract states of the underlying scenarios reached on the first host",
+    [
+        "a host's capability level is constant for the whole run (a real process never sees detection change)",
+        "levels above what the CPU of this machine can execute are skipped (max_host_level in the legs)",
+        "vector operations no algorithm uses are not reached through this property's workload (C12/C13 are not claimed)",
+        "seeded search: a clean batch is evidence, not proof",
+    ],
+    [
+        Leg("std", "release", "chacha_stream@hosts", "C02", 40000, 600000),
+        Leg("std", "checked", "chacha_block@hosts", "C14", 40000, 600000, max_ops=32),
+        Leg("std", "release", "hash_stream@hosts", "C03", 40000, 600000, max_ops=30),
+        Leg("std", "checked", "hash_stream@hosts", "C03", 20000, 300000, max_ops=30),
+    ],
+    [REAL, STUB],
+    cross=[
+        Cross("hash_stream", "C03", "release", 20000, 200000, ["portable", "nostd-sse2"], ALL_FIXED, max_ops=30),
+        Cross("chacha_stream", "C02", "release", 20000, 200000, ["portable", "nostd-sse2"], ALL_FIXED),
+        Cross("chacha_block", "C14", "release", 20000, 200000, ["portable", "nostd-sse2"], ALL_FIXED, max_ops=32),
+    ],
+)
+
+
 # ---------------------------------------------------------------------------------------------
 def run_property(pid, tier):
     spec = PROPS[pid]
@@ -226,8 +332,39 @@ def run_property(pid, tier):
     others = []
     total_runs = total_ops = 0
     harness_error = None
+    acc = dict(total_runs=0, total_ops=0, states=states, counters=counters, notes=notes, samples=samples, legs_out=legs_out,
+               violations=violations, known=known, others=others)
+
+    def absorb(pid, legname, out):
+        acc["total_runs"] += out["runs"]
+        acc["total_ops"] += out["ops"]
+        for h in out.get("state_hashes", []):
+            states.add(h)
+        for k, v in out["counters"].items():
+            counters[k] = counters.get(k, 0) + v
+        for k, v in out["notes"].items():
+            notes[k] = notes.get(k, 0) + v
+        if len(samples) < 3:
+            samples.extend(out["samples"][:1])
+        legs_out.append(
+            dict(leg=legname, runs=out["runs"], ops=out["ops"], wall_ms=out["wall_ms"], digest_sum=out["digest_sum"],
+                 distinct_states=out["distinct_states"], violating_runs=out["violating_runs"], timed_out=out["timed_out"],
+                 dispatches_by_host_level=out.get("dispatches_by_host_level"), max_host_level=out["meta"].get("max_host_level"))
+        )
+        log("[%s] leg %s: %d runs, %d ops, %d states, %d violating runs, %.1fs" % (pid, legname, out["runs"], out["ops"], out["distinct_states"], out["violating_runs"], out["wall_ms"] / 1000.0))
+        for f in out["found"]:
+            v = f["violation"]
+            if pid in v["properties"]:
+                kf = open_finding_for(pid, v["signature"])
+                if kf:
+                    known.append((kf, f))
+                else:
+                    violations.append(f)
+            else:
+                others.append(f)
+
     for leg in spec["legs"]:
-        if tier not in leg.tiers:
+        if tier not in leg.tiers or harness_error:
             continue
         runs = leg.quick if tier == "quick" else leg.thorough
         if runs <= 0:
@@ -243,34 +380,95 @@ def run_property(pid, tier):
             if out is not None and out.get("nondeterministic_seeds"):
                 harness_error += " non-deterministic seeds: %s" % out["nondeterministic_seeds"][:5]
             break
-        total_runs += out["runs"]
-        total_ops += out["ops"]
-        for h in out.get("state_hashes", []):
-            states.add(h)
-        for k, v in out["counters"].items():
-            counters[k] = counters.get(k, 0) + v
-        for k, v in out["notes"].items():
-            notes[k] = notes.get(k, 0) + v
-        if len(samples) < 3:
-            samples += out["samples"][:1]
-        legs_out.append(
-            dict(leg=leg.name(), runs=out["runs"], ops=out["ops"], wall_ms=out["wall_ms"], digest_sum=out["digest_sum"],
-                 distinct_states=out["distinct_states"], violating_runs=out["violating_runs"], timed_out=out["timed_out"],
-                 dispatches_by_host_level=out.get("dispatches_by_host_level"), max_host_level=out["meta"].get("max_host_level"))
-        )
-        log("[%s] leg %s: %d runs, %d ops, %d states, %d violating runs, %.1fs" % (pid, leg.name(), out["runs"], out["ops"], out["distinct_states"], out["violating_runs"], out["wall_ms"] / 1000.0))
-        for f in out["found"]:
-            v = f["violation"]
-            if pid in v["properties"]:
-                kf = open_finding_for(pid, v["signature"])
-                if kf:
-                    known.append((kf, f))
-                else:
-                    violations.append(f)
-            else:
-                others.append(f)
+        absorb(pid, leg.name(), out)
+
+    for cross in spec.get("cross", []):
+        if harness_error:
+            break
+        try:
+            run_cross(pid, cross, tier, sd, replay_dir, absorb, violations, known)
+        except HarnessError as e:
+            harness_error = str(e)
+    total_runs, total_ops = acc["total_runs"], acc["total_ops"]
     wall = time.time() - t0
     return finish(pid, tier, sd, spec, wall, total_runs, total_ops, states, counters, notes, samples, legs_out, violations, known, others, harness_error)
+
+
+def read_digests(path):
+    d = {}
+    for line in open(path):
+        r, h = line.split()
+        d[int(r)] = h
+    return d
+
+
+def run_cross(pid, cross, tier, sd, replay_dir, absorb, violations, known):
+    runs = cross.quick if tier == "quick" else cross.thorough
+    builds = cross.builds_quick if tier == "quick" else cross.builds_thorough
+    if runs <= 0 or not builds:
+        return
+    tmp = os.path.join(VERIF, "target", "tmp")
+    os.makedirs(tmp, exist_ok=True)
+    digs = {}
+    bins = {}
+    for hb in ["std"] + list(builds):
+        binary = build(hb, cross.profile)
+        bins[hb] = binary
+        dfile = os.path.join(tmp, "digests-%s-%s-%s-%d.txt" % (pid, cross.scenario, hb, os.getpid()))
+        args = ["run", "--scenario", cross.scenario, "--mix", cross.mix, "--seed", sd, "--runs", runs, "--threads", NCPU,
+                "--max-ops", cross.max_ops, "--profile", cross.profile, "--host-build", hb, "--replay-dir", replay_dir,
+                "--states", "1", "--digests", dfile]
+        rc, out, err = run_worker(binary, args)
+        if out is None or rc not in (0, 1):
+            log(err[-4000:])
+            raise HarnessError("worker %s on %s failed (rc=%s)" % (cross.name(), hb, rc))
+        absorb(pid, cross.name() + "@" + hb, out)
+        digs[hb] = read_digests(dfile)
+        os.unlink(dfile)
+    ref = digs["std"]
+    for hb in builds:
+        bad = sorted(r for r in ref if digs[hb].get(r) != ref[r])
+        log("[%s] cross %s: std vs %s: %d of %d runs differ" % (pid, cross.name(), hb, len(bad), len(ref)))
+        if not bad:
+            continue
+        r = bad[0]
+
+        def differs(k):
+            ds = []
+            for b in ("std", hb):
+                rc, out, err = run_worker(bins[b], ["trace", "--scenario", cross.scenario, "--mix", cross.mix, "--seed", sd, "--start", r, "--max-ops", k, "--profile", cross.profile, "--host-build", b])
+                if out is None:
+                    raise HarnessError("trace failed on %s" % b)
+                ds.append(out["digest"])
+            return ds[0] != ds[1], out
+
+        lo, hi = 0, cross.max_ops
+        ok, tr = differs(hi)
+        if not ok:
+            raise HarnessError("cross-build difference of run %d did not reproduce (non-determinism)" % r)
+        while lo < hi:  # smallest prefix length whose transcripts differ
+            mid = (lo + hi) // 2
+            d, t2 = differs(mid)
+            if d:
+                hi, tr = mid, t2
+            else:
+                lo = mid + 1
+        _, tr = differs(hi)
+        sig = "builds disagree:%s:%s" % (cross.scenario, hb)
+        tr["kind"] = "crossbuild"
+        tr["builds"] = ["std", hb]
+        tr["meta"] = dict(profile=cross.profile, host_build="std")
+        tr["minimised_from"] = cross.max_ops
+        tr["violation"] = dict(properties=[pid], invariant="X3", signature=sig, at_op=len(tr["ops"]),
+                               detail="run %d: the transcript of build %s differs from build std after %d operations (+ finalisation); %d of %d runs differ" % (r, hb, len(tr["ops"]), len(bad), len(ref)))
+        path = os.path.join(replay_dir, "%s-cross-%s-%s-%d.json" % (pid, cross.scenario, hb, r))
+        json.dump(tr, open(path, "w"))
+        tr["replay"] = path
+        kf = open_finding_for(pid, sig)
+        if kf:
+            known.append((kf, tr))
+        else:
+            violations.append(tr)
 
 
 def finish(pid, tier, sd, spec, wall, total_runs, total_ops, states, counters, notes, samples, legs_out, violations, known, others, harness_error, extra_cov=None):
@@ -334,6 +532,27 @@ def finish(pid, tier, sd, spec, wall, total_runs, total_ops, states, counters, n
 
 def replay(pid, path):
     j = json.load(open(path))
+    if j.get("kind") == "crossbuild":
+        profile = j.get("meta", {}).get("profile", "release")
+        ds = []
+        for hb in j["builds"]:
+            rc, out, err = run_worker(build(hb, profile), ["replay", "--file", path])
+            if out is None:
+                log(err[-3000:])
+                print("HARNESS-ERROR: replay worker failed on %s rc=%s" % (hb, rc))
+                return 2
+            ds.append((out["digest"], out.get("reproduced")))
+        if ds[0] != ds[1]:
+            sig = j["violation"]["signature"]
+            kf = open_finding_for(pid, sig)
+            if kf:
+                print("KNOWN-FINDING: property=%s %s" % (pid, kf.get("what")))
+                return 0
+            print("VIOLATION property=%s replay=%s" % (pid, path))
+            print("  builds %s disagree on this trace: %s" % (j["builds"], ds))
+            return 1
+        print("OK replay: builds %s agree on this trace" % j["builds"])
+        return 0
     meta = j.get("meta", {})
     hb = meta.get("host_build", "std")
     profile = meta.get("profile", "release")
@@ -366,6 +585,10 @@ def setup():
     for pid, spec in PROPS.items():
         for leg in spec["legs"]:
             needed.add((leg.hb, leg.profile))
+        for c in spec.get("cross", []):
+            needed.add(("std", c.profile))
+            for hb in c.builds_thorough:
+                needed.add((hb, c.profile))
     for hb, profile in sorted(needed):
         binary = build(hb, profile)
         rc, out, err = run_worker(binary, ["selftest"])
